@@ -15,6 +15,7 @@
 //!      | {"op":"display","name":V}                         value_to_string of the exported value V
 //!      | {"op":"unop","which":W,"name":V}                  run_unary_op
 //!      | {"op":"binop","which":W,"lhs":A,"rhs":B}          run_binary_op (A,B: {"x":name} or literal)
+//!      | {"op":"framesize","name":F}                       register count of F's NewFrame instruction
 //!      | {"op":"repeat","n":N,"body":OP}                   N times the same OP (one step per repetition)
 //!
 //! Every line is flushed as soon as the case is finished, so that a case that never returns can be
@@ -159,6 +160,19 @@ fn do_op(rt: &mut Rt, op: &Value) -> String {
             };
             res(r.map_err(|e| error_class(&e)))
         }
+        // the register count declared by the NewFrame instruction of an exported Koto function
+        // (parameter `required` of the model's frames)
+        "framesize" => match rt.lookup(op["name"].as_str().unwrap_or("")) {
+            Some(KValue::Function(f)) => {
+                let mut reader = koto_bytecode::InstructionReader::new(f.chunk.clone());
+                reader.ip = f.ip as usize;
+                match reader.next() {
+                    Some(koto_bytecode::Instruction::NewFrame { register_count }) => format!("i{register_count}"),
+                    _ => "ENoNewFrame".into(),
+                }
+            }
+            _ => "EMissing".into(),
+        },
         "display" => {
             let Some(v) = rt.lookup(op["name"].as_str().unwrap_or("")) else {
                 return "EMissing".into();
